@@ -257,13 +257,13 @@ func runC17(c *Ctx) error {
 	// everywhere); the strict parser must not let it – and whatever hangs below it – through, at any depth, list
 	// elements included
 	for where, text := range map[string]string{
-		"top-level":                         "name: p\narch: amd64\nversion: 1.0.0\n~: x\n",
-		"contents[]":                        "name: p\narch: amd64\nversion: 1.0.0\ncontents:\n- src: a\n  dst: /b\n  ~: x\n",
-		"contents[].file_info":              "name: p\narch: amd64\nversion: 1.0.0\ncontents:\n- src: a\n  dst: /b\n  file_info:\n    null: 1\n",
-		"overrides.deb.contents[]":          "name: p\narch: amd64\nversion: 1.0.0\noverrides:\n  deb:\n    contents:\n    - src: a\n      dst: /b\n      ~: {x: 1}\n",
-		"ipk.alternatives[]":                "name: p\narch: amd64\nversion: 1.0.0\nipk:\n  alternatives:\n  - priority: 1\n    target: /t\n    link_name: /l\n    Null: y\n",
-		"deb.signature":                     "name: p\narch: amd64\nversion: 1.0.0\ndeb:\n  signature:\n    ~: x\n",
-		"second element of a list":          "name: p\narch: amd64\nversion: 1.0.0\ncontents:\n- src: a\n  dst: /b\n- src: c\n  dst: /d\n  ~:\n    mode: 0644\n",
+		"top-level":                "name: p\narch: amd64\nversion: 1.0.0\n~: x\n",
+		"contents[]":               "name: p\narch: amd64\nversion: 1.0.0\ncontents:\n- src: a\n  dst: /b\n  ~: x\n",
+		"contents[].file_info":     "name: p\narch: amd64\nversion: 1.0.0\ncontents:\n- src: a\n  dst: /b\n  file_info:\n    null: 1\n",
+		"overrides.deb.contents[]": "name: p\narch: amd64\nversion: 1.0.0\noverrides:\n  deb:\n    contents:\n    - src: a\n      dst: /b\n      ~: {x: 1}\n",
+		"ipk.alternatives[]":       "name: p\narch: amd64\nversion: 1.0.0\nipk:\n  alternatives:\n  - priority: 1\n    target: /t\n    link_name: /l\n    Null: y\n",
+		"deb.signature":            "name: p\narch: amd64\nversion: 1.0.0\ndeb:\n  signature:\n    ~: x\n",
+		"second element of a list": "name: p\narch: amd64\nversion: 1.0.0\ncontents:\n- src: a\n  dst: /b\n- src: c\n  dst: /d\n  ~:\n    mode: 0644\n",
 	} {
 		_, perr := nfpm.ParseWithEnvMapping(strings.NewReader(text), func(string) string { return "" })
 		fam2.Eval("null-key:"+where, true)
